@@ -46,6 +46,8 @@ ASSUMPTIONS = [
     "with num_workers = 2 the two labelings are not compared proposal by proposal (jobs finishing in one gather come back in the iteration order of a "
     "set, which is C07's subject); returning, marked rows and bounds are checked for both labelings, and the optimizer state against the model's run "
     "over the batches actually told",
+    "peer_searches never returns a scalar objective of exactly 0.0 (a peer skips a job whose stored output is falsy and search() then never ends: "
+    "a hang outside C06, reported)",
     "multi-point asks other than the constant liar (qUCB, topk, boltzmann) and acq functions with per-second costs ('ps') are not modelled",
 ]
 RULE = ("on_done: k in 1..3 x return form {raw, dict, dict+metadata, output+metadata} x scalar/tuple/list x number flavour {py, np64, np32} x "
@@ -399,6 +401,16 @@ def check_ondone(case):
     want = m.call(F_ONDONE, [True, before])
     if canon_obj(want) != canon_obj(after):
         return dict(res, ok=False, kind="corr", clause="on_done_output", detail=dict(returned=show(o), impl=show(job.objective), model=want))
+    # what _on_done wrote to the STORAGE is what a peer search (same storage and search id) rebuilds the job from in
+    # gather_other_jobs_done, without going through _on_done again: it must be the sanitised objective too
+    data = ev._storage.load_job(jid)
+    if "out" not in data:
+        return dict(res, ok=False, clause="output_not_stored", detail=dict(returned=show(o), stored=show(data)))
+    stored = enc_obj(data["out"], toks)
+    if not m.call(F_OKROW, [case["k"], before, stored]):
+        return dict(res, ok=False, clause="failure_not_marked_in_storage", detail=dict(returned=show(o), objective_after_on_done=show(job.objective), stored_out=show(data["out"])))
+    if canon_obj(want) != canon_obj(stored):
+        return dict(res, ok=False, kind="corr", clause="stored_output", detail=dict(returned=show(o), stored_out=show(data["out"]), model=want))
     return res
 
 
@@ -1001,6 +1013,146 @@ def shrink_search(case):
             yield dict(case, pattern=pat[:i] + [["ok", [1.0] * len(pat[i][1])]] + pat[i + 1:])
 
 
+# ------------------------------------------------------------------------------------------------------------------
+# stream peer_searches: two searches sharing one storage and search id, taking turns
+# ------------------------------------------------------------------------------------------------------------------
+def run_peers(case):
+    """Two CBO instances on one MemoryStorage / search id (decentralised search, cf. tests/hpo/test_parallel_cbo_manual.py) run
+    search() in turns; each gathers what the peer stored meanwhile through Evaluator.gather_other_jobs_done, which rebuilds the
+    peer's jobs from the storage WITHOUT _on_done.  Job ids are shared, so the run-function replays the pattern by job id."""
+    import contextlib
+    import io
+
+    from deephyper.evaluator import Evaluator
+    from deephyper.evaluator.storage import MemoryStorage
+    from deephyper.hpo import CBO, HpProblem
+
+    outs = pattern_outputs(case, 0)
+    k = case["k"]
+    props, ran_by = {}, {}
+
+    def make_run(name):
+        async def run(job):
+            i = job["job_id"]
+            props[i] = dict(job.parameters)
+            ran_by[i] = name
+            if i < len(outs):
+                return outs[i]
+            return 1.0 if k == 1 else tuple([1.0] * k)
+        return run
+
+    p = HpProblem()
+    p.add_hyperparameter((0.0, 10.0), "x")
+    p.add_hyperparameter((0, 7), "n")
+    p.add_hyperparameter(CHOICES, "c")
+    storage = MemoryStorage()
+    out = dict(exc=None, tables={}, first={}, props=None, ran_by=None)
+    with tempfile.TemporaryDirectory(prefix="vp_c06_") as d:
+        searches = {}
+        sid = None
+        for name in ("a", "b"):
+            ev = Evaluator.create(make_run(name), method="serial", method_kwargs=dict(num_workers=1, storage=storage, search_id=sid))
+            kw = dict(surrogate_model=case["surrogate"], filter_failures=case["ff"], n_initial_points=case["n0"], n_points=32)
+            if case["surrogate"] in ("ET", "RF"):
+                kw["surrogate_model_kwargs"] = dict(n_estimators=8)
+            os.makedirs(os.path.join(d, name))
+            searches[name] = CBO(p, ev, random_state=case["seed"] + (name == "b"), log_dir=os.path.join(d, name), **kw)
+            sid = searches["a"].search_id
+        try:
+            with contextlib.redirect_stdout(io.StringIO()):   # gather_other_jobs_done prints what it loads
+                for name, n in case["turns"]:
+                    df = searches[name].search(max_evals=n)
+                    cols = [c for c in df.columns if c == "objective" or c.startswith("objective_")]
+                    out["tables"][name] = [[int(r["job_id"]), [isinstance(r[c], str) and r[c].startswith("F") for c in cols], [str(r[c]) for c in cols]] for _, r in df.iterrows()]
+                    out["first"].setdefault(name, out["tables"][name])
+        except Exception as e:
+            import traceback
+
+            out["exc"] = type(e).__name__
+            out["trace"] = traceback.format_exc()[-1500:]
+    out["props"] = props
+    out["ran_by"] = ran_by
+    return out
+
+
+def check_peers(case):
+    m = model()
+    toks = Toks()
+    outs = pattern_outputs(case, 0)
+    failed = [i for i, o in enumerate(outs) if m.call(F_REPORTED, enc_obj(o, toks))]
+    kinds = [kd for kd, _ in case["pattern"]]
+    sig = {"objectives": "single" if case["k"] == 1 else "multi", "peers": True, "nonfinite": any(kd in ("nan", "inf", "-inf", "tuple_nan") for kd in kinds)}
+    res = dict(ok=True, kind="oracle", clause="", nontrivial=False, sig=sig,
+               desc=["surrogate=" + case["surrogate"], "ff=" + case["ff"], "objectives=" + sig["objectives"], "turns=%d" % len(case["turns"])] + sorted(set("kind=" + kd for kd in kinds if kd != "ok")))
+    r = run_peers(case)
+    ids = sorted(r["props"])
+    dens = [Fraction(float(r["props"][i]["x"])).denominator for i in ids]
+    scale = max(dens + [1])
+    pr = enc_props([r["props"][i] for i in ids], scale)
+    box = [[0, 10 * scale], [0, 7], [0, len(CHOICES) - 1]]
+    seen_peer_failure = False
+    verdicts = []
+    for name in ("a", "b"):
+        rows = r["tables"].get(name)
+        if rows is None and not r["exc"]:
+            continue   # this instance had no turn
+        rows = rows or []
+        present = set(j for j, _, _ in rows)
+        # every failed evaluation this instance ran itself must be in its table; a peer's failed evaluation must be marked when it is there
+        mine = [j for j in failed if r["ran_by"].get(j) == name]
+        theirs = [j for j in failed if r["ran_by"].get(j) not in (None, name) and j in present]
+        seen_peer_failure = seen_peer_failure or bool(theirs)
+        code = m.call(F_OKSEARCH, [bool(r["exc"]), [j for j in mine if j in present or not r["exc"]] + theirs, [[j, c] for j, c, _ in rows], box, pr, pr])
+        verdicts.append((name, code, rows, mine, theirs))
+        if code:
+            clause = "exception:" + r["exc"] if code == 1 else SEARCH_CLAUSE.get(code, str(code))
+            # the first search() call of this instance ended with failures only (its forced flush then fixes the header: C04's F06b)
+            first = r["first"].get(name)
+            sig = dict(sig, first_call_all_failed=bool(first) and all(flags and all(flags) for _, flags, _ in first))
+            return dict(res, ok=False, clause=clause, nontrivial=True, sig=sig,
+                        detail=dict(outputs=show(outs), instance=name, exc=r["exc"], trace=r.get("trace"), failed_jobs=failed, ran_by=r["ran_by"],
+                                    table=[[j] + cells for j, _, cells in rows]))
+    res["nontrivial"] = seen_peer_failure
+    res["desc"] = res["desc"] + ["peer_failure_gathered" if seen_peer_failure else "no_peer_failure_gathered"]
+    return res
+
+
+def gen_peers(quick_n, thorough_n):
+    def g(rng, tier):
+        n = thorough_n if tier == "thorough" else quick_n * 2 if tier == "search" else quick_n
+        for i in range(n):
+            k = rng.choice([1, 1, 2])
+            kinds = ["str", "nan", "nan", "inf", "-inf"] + (["tuple_nan", "tuple_nan"] if k > 1 else [])
+            nturns = rng.choice([2, 3, 3, 4])
+            turns, total = [], 0
+            for t in range(nturns):
+                cnt = rng.randint(2, 4)
+                turns.append(["ab"[t % 2], cnt])
+                total += cnt
+            pat = gen_pattern(rng, k, total, rng.choice(["mixed", "mixed", "first", "random"]), kinds)
+            # a scalar objective of exactly 0.0 is not generated here: gather_other_jobs_done skips a peer's job whose stored output is
+            # falsy (`if job_data and job_data["out"]`), the peer never counts it as gathered and the collecting loop of search() spins
+            # for ever - seen with this stream, a defect outside C06 (0.0 is a success), reported to the coordinator
+            pat = [[kd, [v if v != 0.0 else 0.25 for v in vals]] for kd, vals in pat]
+            yield dict(k=k, seed=rng.randint(0, 10 ** 6), surrogate=["ET", "DUMMY", "ET", "RF"][i % 4] if tier == "thorough" else ["ET", "DUMMY"][i % 2],
+                       ff=["min", "mean", "ignore"][(i // 2) % 3], n0=rng.choice([1, 2, 3]), pattern=pat, turns=turns)
+    return g
+
+
+def shrink_peers(case):
+    pat, turns = case["pattern"], case["turns"]
+    if len(turns) > 2:
+        yield dict(case, turns=turns[:-1])
+    for i in range(len(turns)):
+        if turns[i][1] > 1:
+            yield dict(case, turns=turns[:i] + [[turns[i][0], turns[i][1] - 1]] + turns[i + 1:])
+    for i in range(len(pat)):
+        if pat[i][0] != "ok":
+            yield dict(case, pattern=pat[:i] + [["ok", [1.0] * len(pat[i][1])]] + pat[i + 1:])
+    if case["surrogate"] != "DUMMY":
+        yield dict(case, surrogate="DUMMY")
+
+
 def streams(tier):
     th = tier == "thorough"
     return [
@@ -1010,4 +1162,5 @@ def streams(tier):
         Stream("optimizer_tell", gen_opttell(2000 if th else 400), check_opttell, shrink_batches, timeout=60),
         Stream("regevo_tell", gen_regevo(400 if th else 100), check_regevo, shrink_hist, timeout=60),
         Stream("searches", gen_searches(240, 2400), check_search, shrink_search, timeout=300),
+        Stream("peer_searches", gen_peers(120, 800), check_peers, shrink_peers, timeout=120),
     ]
